@@ -10,7 +10,8 @@ ID = "C03"
 LEVEL = "exploration"
 RULE = (
     "case = (sampler class with generated options, generated search space of 1-6 parameters: dyadic / decimal / "
-    "non-dividing / far-offset / tiny / huge axes, on-grid history of 1-60 points with random, tied, all-equal or "
+    "non-dividing / far-offset / tiny / huge axes, 15% with all axes of equal length but different values, 4% with one axis "
+    "of more than a million points; for BestBatch also histories shorter than the batch (refusal or a full batch); on-grid history of 1-60 points with random, tied, all-equal or "
     "wide-range finite losses, seed) followed by 1-8 successive sample() calls on the same object with outputs fed back "
     "into the history. Oracle: shape == (batch_size, dims) and every coordinate == some element of its axis grid. "
     "Non-trivial = the space has an axis whose grid is not exactly lower+k*precision ending on the upper bound; distinct "
@@ -21,7 +22,7 @@ ASSUMPTIONS = [
     "CORS is not given all-zero losses (its normalisation divides by max|loss|)",
 ]
 REQUIRED_COUNTERS = {f"batches_{k}": 20 for k in G.SAMPLER_KINDS}
-REQUIRED_COUNTERS.update({"nonaligned_spaces": 50, "multi_call_objects": 50, "second_space_calls": 60})
+REQUIRED_COUNTERS.update({"spaces_with_equal_length_axes": 20, "spaces_with_a_million_point_axis": 5, "bestbatch_history_shorter_than_batch": 3, "nonaligned_spaces": 50, "multi_call_objects": 50, "second_space_calls": 60})
 SHARDS = {"quick": 16, "thorough": 16}
 SHARD_WATCHDOG = {"quick": 1500, "thorough": 10800}
 
@@ -38,13 +39,20 @@ def run_case(desc, ctx):
     c = out["counters"]
     slow = kind in ("CORS", "GaussianProcess")
     for rep in range(2 if slow else 4):
-        sd = G.gen_space(rng, dims=int(rng.integers(1, 4)) if slow else None)
+        sd = G.gen_space(rng, dims=int(rng.integers(1, 4)) if slow else None, giant_ok=not slow)
         space = G.build_space(sd)
         smp = G.gen_sampler_desc(rng, kind)
         bs = smp["batch_size"]
         nh = int(rng.integers(max(bs, 2), 25 if slow else 61))
         if kind in G.HISTORY_FREE and rng.random() < 0.3:
             nh = 0
+        if kind == "BestBatch" and bs >= 2 and rng.random() < 0.15:
+            nh = int(rng.integers(1, bs))   # history shorter than the batch: refusing is fine, a short batch is not
+            c["bestbatch_history_shorter_than_batch"] = c.get("bestbatch_history_shorter_than_batch", 0) + 1
+        if max(len(g) for g in space.param_grid) > 1_000_000:
+            c["spaces_with_a_million_point_axis"] = c.get("spaces_with_a_million_point_axis", 0) + 1
+        if space.dims >= 2 and len({len(g) for g in space.param_grid}) == 1 and len({tuple(g[:2]) for g in space.param_grid}) > 1:
+            c["spaces_with_equal_length_axes"] = c.get("spaces_with_equal_length_axes", 0) + 1
         pts, losses, lk = G.gen_history(rng, space, nh, "random" if kind == "CORS" and rng.random() < 0.5 else None)
         if kind == "CORS" and not np.any(losses):
             losses = losses + 1.0
